@@ -67,6 +67,14 @@ Definition c10_run_class (alive probe stopped : bool) (panics : Z)
   else if negb (forallb (fun g => snd (fst g) =? 0) goods) then 6%N
   else 0%N.
 
+(* listeners with a handshake (TLS over TCP, DTLS): "never ... stops accepting ... stalled handshakes ... of one peer
+   never change what other peers receive".  Every peer that performs its own handshake properly -- whether it
+   connected before or AFTER peers that send nothing, stall in the middle of their ClientHello, send garbage or
+   go away -- must see its handshake complete within the watchdog: class 10 otherwise.  What such a peer then
+   receives is judged by [c10_run_class] like every other well-behaved client. *)
+Definition c10_handshake_class (completed : list bool) : N :=
+  if forallb (fun b => b) completed then 0%N else 10%N.
+
 (* discovery, step by step as the harness drives it: a discovery request registers its receiver for its
    token until it returns; every response sent to the server must be handed to the receiver registered for
    its token at that time -- exactly once, with the connection of the peer that sent it (identified by the
